@@ -19,14 +19,16 @@ RULE = ("case = (termtype, byte stream, cut offsets, keys the system's libtermke
         "bytes; termtypes xterm (terminfo mouse prefix ESC[<) and xterm-vt220 (ESC[M, SGR/rxvt decoded by the CSI parser).  "
         "Exhaustive part: every single cut of every stream of the fixed corpus and the byte-by-byte delivery; random part: "
         "random streams with random k cuts, and streams longer than libtermkey's 256-byte buffer.  The real terminal is fed the "
-        "chunks with no time-out in between; observation = every key / mouse event, the final time-out state and held-button "
+        "chunks under a virtual clock (link-time gettimeofday): after each chunk an optional gap below the 50 ms wait time "
+        "passes and tickit_term_input_check_timeout_msec is polled, as an event loop does (timed cases: byte-wise and k-cut "
+        "deliveries whose gaps are each < 50 ms but together exceed it); observation = every key / mouse event, the final time-out state and held-button "
         "mask.  Non-trivial = at least one event and at least one cut; distinct = distinct (termtype, multiset of key types, "
         "whether a cut falls inside a multi-byte key, number of held buttons seen, long stream).")
 ASSUMPTIONS = ["PARTIAL by nature: Tickit's side is proved for every tokenizer meeting the hypotheses stated next; libtermkey itself is trusted (the property says so)",
                "libtermkey is trusted as the tokenizer (the property says so); the model assumes of it only prefix stability (a key "
                "found in a buffer is found, with the same length, in every extension of the buffer) and that nothing is consumed "
                "without a key; both are also tested here, because the model is fed the keys of the WHOLE stream",
-               "no inter-byte time-out is forced between chunks (the property's own condition); the clock is frozen",
+               "no inter-byte time-out is forced between chunks (the property's own condition): every scripted gap is below libtermkey's 50 ms wait time; the clock is virtual",
                "libtermkey's buffer holds 256 bytes and no single unfinished sequence fills it",
                "held-button record: button numbers 1..30 (libtermkey reports 1..3 for press/drag)"]
 TRUSTED = ["model coq/InputDefs.v hand-written after got_key / get_keys / tickit_term_input_push_bytes of src/term.c (with "
@@ -150,6 +152,38 @@ def gen(tier, seed, info):
         k = rnd.randint(0, min(6, max(0, len(s) - 1)))
         cuts = sorted(rnd.sample(range(1, len(s)), k)) if len(s) > 1 and k else []
         streams.append((tt, s, cuts, tag))
+    # ---- timed delivery: a gap (virtual microseconds) after each fragment, every gap below the
+    #      50 ms wait time, the fragments of one sequence together often taking longer than it
+    GAPS = [1, 10000, 20000, 30000, 45000, 49999]
+    ntimed = 0
+    timed_items = KEYS + MOUSE_X10 + MOUSE_SGR + MOUSE_RXVT + REPLIES + [b"\xe2\x82\xac", b"\xf0\x9f\x98\x80", b"\x1b\x1b[A"]
+    for tt in TERMS:
+        for it in timed_items:
+            for pre, post in ((b"", b""), (b"a", b"b"), (b"\x1b[A", b"\x1b[1;5C")):
+                st = pre + it + post
+                if len(st) < 2:
+                    continue
+                for g in (20000, 30000, 49999):
+                    # byte by byte, the same gap after every byte
+                    streams.append((tt, st, ["%d+%d" % (c, g) for c in range(1, len(st) + 1)], "timed"))
+                    ntimed += 1
+                # pairs of bytes, mixed gaps
+                cuts = list(range(2, len(st), 2))
+                streams.append((tt, st, ["%d+%d" % (c, GAPS[(i + len(st)) % len(GAPS)]) for i, c in enumerate(cuts)], "timed"))
+                ntimed += 1
+    for _ in range(1500 if tier == "quick" else 100000):
+        tt = rnd.choice(TERMS)
+        st = b"".join(rnd.choice(allitems) for _ in range(rnd.randint(1, 5)))
+        if len(st) < 2:
+            continue
+        k = rnd.randint(1, min(10, len(st) - 1))
+        cuts = sorted(rnd.sample(range(1, len(st)), k))
+        if rnd.random() < 0.3:
+            cuts.append(len(st))
+        streams.append((tt, st, ["%d+%d" % (c, rnd.choice(GAPS + [0, 0])) for c in cuts], "timed"))
+        ntimed += 1
+    info["timed_cases"] = ntimed
+    info["timed_gaps_us"] = GAPS
     # ---- longer than libtermkey's buffer
     nlong = 60 if tier == "quick" else 2000
     for _ in range(nlong):
@@ -212,7 +246,8 @@ def classify(case, obs):
     ev = [o for o in obs.split() if o[0] in "km"]
     if not ev or t[2] == "-":
         return None
-    cuts = [int(c) for c in t[2].split(",")]
+    cuts = [int(c.split("+")[0]) for c in t[2].split(",")]
+    gaps = [int(c.split("+")[1]) for c in t[2].split(",") if "+" in c]
     pos, inside, types = 0, False, set()
     for tk in t[3:]:
         if tk[0] != "L":
@@ -224,7 +259,8 @@ def classify(case, obs):
             inside = True
         pos += ln
     nheld = len(set(o.split(":")[1] for o in ev if o[0] == "m" and o[1] in "12"))
-    return (t[0], tuple(sorted(types)), inside, min(len(cuts), 3), nheld, len(t[1]) > 512)
+    timed = (sum(gaps) > 50000, max(gaps) >= 45000) if any(gaps) else None
+    return (t[0], tuple(sorted(types)), inside, min(len(cuts), 3), nheld, len(t[1]) > 512, timed)
 
 
 def shrink(case):
